@@ -43,6 +43,9 @@ pub fn classify_add_panic(p: Box<dyn std::any::Any + Send>) -> String {
         let b = m.rfind("\")").unwrap_or(m.len());
         if a <= b { m[a..b].to_string() } else { String::new() }
     };
+    if m.starts_with("harness running_time panic") {
+        return "callback-panic".to_string();
+    }
     if m.starts_with("No such system registered") {
         format!("panic unknownDep {}", hex(&quoted(&m)))
     } else if m.starts_with("Cannot insert multiple systems with the same name") {
@@ -235,6 +238,9 @@ impl<'d> BuildCtx<'d> {
                     let sys = HSys { acc: Acc { tag: *tag, decl_r: r.clone(), decl_w: w.clone(), shared: self.shared.clone(), path: path.clone(), borrow: self.borrow }, time: rt(*t) };
                     let dr: Vec<&str> = deps.iter().map(|s| s.as_str()).collect();
                     let well_formed = (name.is_empty() || !names.contains(name)) && deps.iter().all(|d| names.contains(d));
+                    // hint 0: this system's `running_time()` panics inside `add` (the caller goes on with the builder)
+                    self.shared.behav[*tag].rt_panics.store(*t == 0, SeqCst);
+                    let chain = chain && *t != 0;
                     let real = match catch_unwind(AssertUnwindSafe(|| {
                         if chain && well_formed {
                             *b = std::mem::take(b).with(sys, name, &dr)
@@ -256,9 +262,10 @@ impl<'d> BuildCtx<'d> {
                     if placed {
                         union(&mut ur, r);
                         union(&mut uw, w);
-                        if !name.is_empty() {
-                            names.push(name.clone());
-                        }
+                    }
+                    if (placed || real == "callback-panic") && !name.is_empty() {
+                        // (a registration that failed in the user's callback has recorded its name already)
+                        names.push(name.clone());
                     }
                     self.out.infos.insert(*tag, Info { tag: *tag, name: name.clone(), deps: deps.clone(), r: r.clone(), w: w.clone(), t: *t, is_batch: false, is_tl: false, placed, epoch, outcome: real, parent, id });
                     self.out.order.entry(parent).or_default().push(*tag);
